@@ -28,6 +28,7 @@ def runRW (r : Report) (s : Section) : Report := Id.run do
   let mut rw := RW.new size iv ign t0
   let mut log : Array (Nat × Nat) := #[]
   let mut last := t0
+  let mut back := false     -- the clock has gone backwards in this section: outside the property, correspondence only
   let mut r := r
   if size = 0 ∨ iv = 0 then return r.mismatch s.idx 0 "size>=1 interval>=1" (joinSp s.cfg)
   for l in s.lines do
@@ -36,15 +37,18 @@ def runRW (r : Report) (s : Section) : Report := Id.run do
     | ["add", t, v] =>
       match t.toNat?, v.toNat? with
       | some t, some v =>
-        if t < last then r := r.mismatch s.idx l.idx "monotone-time" (joinSp l.op) else
-        let sp := rw.span t
+        if t < last then
+          back := true
+          r := r.addCover (if rw.lastTime ≤ t then "rw-add-back-but-not-behind-lastTime"
+                           else if rw.lastTime - t < iv then "rw-add-back-less-than-interval" else "rw-add-back-wipes-window")
+        let sp := rw.spanB t
         r := r.addCover (if sp = 0 then "rw-add-same-bucket" else if sp = size then
                            (if (t - rw.lastTime) / iv = size then "rw-add-span-eq-size" else "rw-add-span-gt-size")
                          else if sp + 1 = size then "rw-add-span-size-1" else "rw-add-advance")
         if (t - t0) % iv = 0 then r := r.addCover "rw-on-boundary"
         if (t - t0) % iv + 1 = iv ∧ iv > 1 then r := r.addCover "rw-boundary-minus-1"
         if (t - t0) % iv = 1 ∧ iv > 2 then r := r.addCover "rw-boundary-plus-1"
-        rw := rw.add t v
+        rw := rw.addB t v
         log := log.push (t, v)
         last := t
         if joinSp l.obs ≠ "ok" then r := r.mismatch s.idx l.idx "ok" (joinSp l.obs)
@@ -52,15 +56,19 @@ def runRW (r : Report) (s : Section) : Report := Id.run do
     | ["reduce", t] =>
       match t.toNat? with
       | some t =>
-        if t < last then r := r.mismatch s.idx l.idx "monotone-time" (joinSp l.op) else
+        if t < last then
+          back := true
+          r := r.addCover (if rw.lastTime ≤ t then "rw-reduce-back-but-not-behind-lastTime"
+                           else if rw.lastTime - t < iv then "rw-reduce-back-less-than-interval" else "rw-reduce-back-reads-empty")
         last := t
-        let sp := rw.span t
+        let sp := rw.spanB t
         r := r.addCover (if sp = 0 then (if ign then "rw-reduce-current-ignored" else "rw-reduce-current")
                          else if sp = size then "rw-reduce-all-expired"
                          else if sp + 1 = size then "rw-reduce-span-size-1" else "rw-reduce-partly-expired")
         let impl := joinSp l.obs
-        let m := bucketsS (rw.reduce t)
+        let m := bucketsS (rw.reduceB t)
         if m ≠ impl then r := r.mismatch s.idx l.idx m impl
+        if back then continue
         -- monitor 1 (bucket level): the visited buckets are the log's intervals
         let spec := bucketsS (Spec.visible size ign t0 iv log.toList t)
         if spec ≠ impl then
